@@ -191,6 +191,22 @@ def lookup2 (st : St) (isDef : Bool) (x ok : Name) (m : LExp) (k : IExp) (zero :
   let st1 ← setOrDeclare st (isDef && !rdx) x (r.getD zero)
   setOrDeclare st1 (isDef && !rdok) ok (boolVal r.isSome)
 
+/-- `l = <-c` / `x := <-c` with the value of `r` in the channel: an assignment / declaration of the received value
+    (Receive operator: "The value of the receive operation <-ch is the value received from the channel") -/
+def recv (st : St) (isDef : Bool) (l : LExp) (r : RExp) : Except Err St :=
+  if isDef then
+    match l with
+    | .var x => define st x r
+    | _ => .error "ill:define"
+  else assign st l r
+
+/-- `x, ok = e.(T)` / `x, ok := e.(T)` (Type assertions: "the value of ok is true if the assertion holds. Otherwise
+    it is false and the value of v is the zero value for type T"); the interface holds a copy of the value -/
+def assert2 (st : St) (isDef : Bool) (x ok : Name) (r : RExp) (succ : Bool) (zero : Val) (rdx rdok : Bool) : Except Err St := do
+  let (v, st0) ← (if succ then evalR st r else .ok (zero, st))
+  let st1 ← setOrDeclare st0 (isDef && !rdx) x v
+  setOrDeclare st1 (isDef && !rdok) ok (boolVal succ)
+
 /-- `l = mut(arg)`: the parameter is a new variable holding a copy of the argument -/
 def callMut (st : St) (isDef : Bool) (l : LExp) (sel : LExp) (k : Int) (arg : RExp) : Except Err St := do
   let (v, st1) ← evalR st arg
@@ -210,6 +226,8 @@ def sop (G : Growth) (st : St) : SOp → Except Err St
   | .mapSet m k r => mapSet st m k r
   | .mapDel m k => mapDel st m k
   | .lookup2 isDef x ok m k zero rdx rdok => lookup2 st isDef x ok m k zero rdx rdok
+  | .recv isDef l r => recv st isDef l r
+  | .assert2 isDef x ok r succ zero rdx rdok => assert2 st isDef x ok r succ zero rdx rdok
   | .callMut isDef l sel k arg => callMut st isDef l sel k arg
   | .show xs => .ok { st with out := st.out ++ [showLine st xs] }
 
